@@ -76,17 +76,25 @@ def mkblobdata(n):
     return b'cZODB.blob\nBlob\n.' + pickle.dumps(n, 3)
 
 
+# source kinds: which operations their histories may contain
+UNDO_KINDS = ('file', 'fileblob', 'demo-mf', 'demo-ff', 'hexfile', 'hexblob', 'cfg-file')
+DEL_KINDS = ('file', 'fileblob', 'hexfile', 'hexblob', 'cfg-file')
+BLOB_KINDS = ('fileblob', 'hexblob', 'cfg-file')
+FILE_FAMILY = ('file', 'fileblob', 'hexfile', 'hexblob', 'cfg-file')
+
+
 def gen_program(rng, kind, ntx=None, small=False, multi_undo=None):
     """a storage-level history as a json-able program"""
     ntx = ntx or rng.choice([2, 3, 4, 5, 6, 8])
-    oids = [1, 2, 0x10000, 2 ** 63] if not small else [1, 2, 3]
+    # oids in several index buckets (6-byte prefixes), with 0xff / 0x00 bytes, high bit, the largest
+    oids = [1, 2, 0x10000, 2 ** 63, 0x1ffff, 2 ** 64 - 1] if not small else [1, 2, 3]
     steps = []
     live = {}            # oid -> True (exists) / False (deleted)
     undoable = []        # step indices
     step_oids = {}       # step index -> oids it writes
     base_oids = set()    # demo: oids with a revision in the base
-    canundo = kind in ('file', 'fileblob', 'demo-mf', 'demo-ff')
-    candel = kind in ('file', 'fileblob')
+    canundo = kind in UNDO_KINDS
+    candel = kind in DEL_KINDS
     split = rng.randrange(1, ntx) if kind.startswith('demo') else 0
     n = 0
     tid = BASE + GAP * rng.choice([1, 1, 5])
@@ -115,7 +123,7 @@ def gen_program(rng, kind, ntx=None, small=False, multi_undo=None):
                 if not any(op[1] == o for op in ops):
                     ops.append(['d', o])
                     live[o] = False
-            elif (kind == 'fileblob' or (kind == 'demo-bm' and not in_changes)) and r < 0.65:
+            elif (kind in BLOB_KINDS or (kind == 'demo-bm' and not in_changes)) and r < 0.65:
                 o = rng.choice(oids)
                 if not any(op[1] == o for op in ops):
                     n += 1
@@ -153,11 +161,24 @@ def gen_program(rng, kind, ntx=None, small=False, multi_undo=None):
             undoable = []
     if canundo and rng.random() < (0.35 if multi_undo is None else multi_undo):
         tid = multi_undo_scenario(rng, steps, tid, rng.choice([2, 2, 3]))
-    if kind == 'fileblob' and rng.random() < 0.7:
+    if kind in BLOB_KINDS and rng.random() < 0.7:
         tid = blob_undo_scenario(rng, steps, tid)
     if canundo and rng.random() < (0.35 if multi_undo is None else multi_undo):
         tid = uncreation_chain_scenario(rng, steps, tid, rng.choice([3, 4, 5]), candel and rng.random() < 0.5)
-    return dict(kind=kind, steps=steps, split=split)
+    prog = dict(kind=kind, steps=steps, split=split)
+    if not small and rng.random() < 0.06:
+        # boundary values: a record larger than 64 KiB (utils.cp chunks) followed by a small one;
+        # user / description / extension at the 65535 limit
+        big = [x for x in steps if x.get('ops') and x['ops'][0][0] == 's']
+        if big:
+            x = rng.choice(big)
+            x['ops'][0][2] = (b'N.' + pickle.dumps(b'B' * rng.choice([65536, 70000, 131073]), 3)).hex()
+            x['u'] = (b'u' * rng.choice([65535, 65534])).hex()
+            x['d'] = (b'd' * 65535).hex()
+    if kind in FILE_FAMILY and rng.random() < 0.2:
+        # a voted, unfinished transaction at the end of the source while it is copied / recovered
+        prog['tail'] = dict(t=tid + GAP, oid=5, data=mkdata(5, 9999, rng).hex())
+    return prog
 
 
 def multi_undo_scenario(rng, steps, tid, k):
@@ -266,8 +287,30 @@ def open_storage(kind, d, name):
         return (ZODB.blob.BlobStorage(os.path.join(d, name + '.blobs'),
                                       FileStorage(os.path.join(d, name + '.fs'))),
                 os.path.join(d, name + '.fs'))
+    if kind == 'blobwrap-lawn':
+        return (ZODB.blob.BlobStorage(os.path.join(d, name + '.blobs'),
+                                      FileStorage(os.path.join(d, name + '.fs')), layout='lawn'),
+                os.path.join(d, name + '.fs'))
     if kind == 'mapping':
         return ZODB.MappingStorage.MappingStorage(), None
+    if kind == 'mvcc':
+        from ZODB.tests.MVCCMappingStorage import MVCCMappingStorage
+        return MVCCMappingStorage(), None
+    if kind in ('hexfile', 'hexblob'):
+        from ZODB.tests.hexstorage import HexStorage
+        base, path = open_storage('file' if kind == 'hexfile' else 'fileblob', d, name)
+        return HexStorage(base), path
+    if kind == 'cfg-file':
+        # built by ZODB.config with explicit true AND false option values
+        import ZODB.config
+        path = os.path.join(d, name + '.fs')
+        return ZODB.config.storageFromString(
+            '<filestorage>\n path %s\n blob-dir %s\n create %s\n read-only false\n'
+            ' pack-gc false\n pack-keep-old false\n</filestorage>\n'
+            % (path, os.path.join(d, name + '.blobs'), 'false' if os.path.exists(path) else 'true')), path
+    if kind == 'cfg-mapping':
+        import ZODB.config
+        return ZODB.config.storageFromString('<mappingstorage>\n</mappingstorage>\n'), None
     raise ValueError(kind)
 
 
@@ -351,7 +394,7 @@ def build(prog, d, name='src'):
     kind = prog['kind']
     serial, tids = {}, {}
     if kind.startswith('demo'):
-        bk = {'m': 'mapping', 'f': 'file', 'b': 'fileblob'}[kind[5]]
+        bk = {'m': 'mapping', 'f': 'file', 'b': 'fileblob', 'p': 'file'}[kind[5]]
         ck = 'mapping' if kind[6] == 'm' else 'file'
         # split counts transactions; find the step index
         nt, cut = 0, len(prog['steps'])
@@ -367,6 +410,18 @@ def build(prog, d, name='src'):
             # a FRESH DemoStorage with its default volatile changes over a base that has blobs;
             # no blob method is called on it before the copy (its lazy _blobify happens in the copy)
             st = ZODB.DemoStorage.DemoStorage(base=base)
+        elif kind == 'demo-push':
+            # three layers: file base, file changes, then a pushed volatile layer
+            changes, _ = open_storage('file', d, name + '-changes')
+            mid = ZODB.DemoStorage.DemoStorage(base=base, changes=changes)
+            rest = prog['steps'][cut:]
+            h = len(rest) // 2
+            run_steps(mid, rest[:h], serial, tids, d, b, index0=cut)
+            st = mid.push()
+            run_steps(st, rest[h:], serial, tids, d, b, index0=cut + h)
+            b.storage = st
+            b.closers = [st.close]
+            return b
         else:
             changes, _ = open_storage(ck, d, name + '-changes')
             st = ZODB.DemoStorage.DemoStorage(base=base, changes=changes)
@@ -378,6 +433,14 @@ def build(prog, d, name='src'):
         run_steps(st, prog['steps'], serial, tids, d, b)
         b.storage, b.path = st, path
         b.closers = [st.close]
+        if prog.get('tail'):
+            from ZODB.Connection import TransactionMetaData
+            tl = prog['tail']
+            t = TransactionMetaData(b'tail', b'voted, never finished', {})
+            st.tpc_begin(t, p64(tl['t']))
+            st.store(p64(tl['oid']), serial.get(p64(tl['oid']), p64(0)), bytes.fromhex(tl['data']), '', t)
+            st.tpc_vote(t)
+            b.closers = [lambda: st.tpc_abort(t), st.close]
     return b
 
 
@@ -430,7 +493,7 @@ def q(f, *a):
         return errk(e)
 
 
-def query_dump(st, dump, blobs=False):
+def query_dump(st, dump, blobs=False, family=False):
     """answers of every revision query at every oid x tid boundary"""
     oids = sorted({r[0] for t in dump for r in t[6]})
     tids = [t[0] for t in dump]
@@ -453,6 +516,23 @@ def query_dump(st, dump, blobs=False):
                     return None if r is None else (r[0].hex(), r[1].hex(), None if r[2] is None else r[2].hex())
                 out['loadBefore %s %s' % (o, b.hex())] = q(lb)
             out['loadSerial %s %s' % (o, th)] = q(lambda: st.loadSerial(oid, tb).hex())
+    if family:
+        # less-travelled queries, compared between storages of the FileStorage family only
+        out['len'] = q(lambda: len(st))
+
+        def walk():
+            res, nxt = [], None
+            while True:
+                oid, tid, data, nxt = st.record_iternext(nxt)
+                res.append((oid.hex(), tid.hex(), None if data is None else data.hex()))
+                if nxt is None or len(res) > 10000:
+                    return res
+        out['record_iternext'] = q(walk)
+        out['undoLog'] = q(lambda: [(u['id'].hex() if isinstance(u['id'], bytes) else str(u['id']),
+                                     u['user_name'].hex(), u['description'].hex())
+                                    for u in st.undoLog(0, -1000)])
+        for o in oids:
+            out['lastTid ' + o] = q(lambda: (lambda v: v and v.hex())(st.lastTid(bytes.fromhex(o))))
     if blobs:
         # the blob file of EVERY record (oid, tid), blob record or not: the copy must have exactly the
         # blob files the source has — none missing, none extra (POSKeyError where the source raises)
@@ -501,8 +581,9 @@ def history_oracle(dump):
 
 
 # =================================================================== (a) copy cases
-SRC_KINDS = ['file', 'file', 'fileblob', 'fileblob', 'mapping', 'demo-mf', 'demo-ff', 'demo-mm', 'demo-bm']
-DST_KINDS = ['file', 'fileblob', 'blobwrap']
+SRC_KINDS = ['file', 'fileblob', 'hexfile', 'mapping', 'demo-mf', 'fileblob', 'demo-ff', 'hexblob', 'demo-mm',
+             'demo-bm', 'file', 'cfg-file', 'mvcc', 'demo-push', 'cfg-mapping', 'fileblob']
+DST_KINDS = ['file', 'fileblob', 'blobwrap', 'hexfile', 'hexblob', 'cfg-file', 'blobwrap-lawn']
 
 
 class RangeSource:
@@ -518,14 +599,107 @@ class RangeSource:
         return self.st.loadBlob(oid, tid)
 
 
+class CopyInterrupted(Exception):
+    pass
+
+
+class FailingSource(RangeSource):
+    """a source whose iteration breaks down after `k` records (an I/O error of the source in the
+    middle of a transaction): the copy fails, is aborted, and is RESUMED from that transaction"""
+
+    def __init__(self, st, k):
+        RangeSource.__init__(self, st, None, None)
+        self.k = k
+        self.failed_tid = None
+
+    def iterator(self):
+        outer = self
+        n = [0]
+
+        class T:
+            def __init__(self, t):
+                self._t = t
+
+            def __getattr__(self, name):
+                return getattr(self._t, name)
+
+            def __iter__(self):
+                for r in self._t:
+                    if n[0] >= outer.k:
+                        outer.failed_tid = self._t.tid
+                        raise CopyInterrupted()
+                    n[0] += 1
+                    yield r
+        for t in self.st.iterator():
+            yield T(t)
+
+
+BLOB_DST = ('fileblob', 'blobwrap', 'blobwrap-lawn', 'hexblob', 'cfg-file')
+HEX_KINDS = ('hexfile', 'hexblob')
+
+
+def manual_restore(src_dump, src, dsts, mode, seed, use_blobs):
+    """restore / restoreBlob by hand, transaction by transaction, into one or more destinations in
+    lockstep (interleaved two-phase commits); hints as yielded ('keep'), dropped ('none'), naming a
+    transaction the destination does not have ('bogus'), or a mixture"""
+    import random
+    import tempfile
+    from ZODB.Connection import TransactionMetaData
+    from ZODB.blob import is_blob_record
+    rnd = random.Random(seed)
+    for t in src_dump:
+        metas = []
+        for dst in dsts:
+            m = TransactionMetaData(bytes.fromhex(t[2]), bytes.fromhex(t[3]), bytes.fromhex(t[4]))
+            dst.tpc_begin(m, bytes.fromhex(t[0]), t[1])
+            metas.append(m)
+        for r in t[6]:
+            hint = None if r[3] is None else bytes.fromhex(r[3])
+            md = mode if mode != 'mixed' else rnd.choice(['keep', 'none', 'bogus'])
+            if md == 'none':
+                hint = None
+            elif md == 'bogus' and hint is not None:
+                hint = p64(u64(hint) + 3)              # no such transaction anywhere
+            data = None if r[2] is None else bytes.fromhex(r[2])
+            oid, tid = bytes.fromhex(r[0]), bytes.fromhex(r[1])
+            for dst, m in zip(dsts, metas):
+                fn = None
+                if use_blobs and data is not None and is_blob_record(data):
+                    try:
+                        fn = src.loadBlob(oid, tid)
+                    except KeyError:
+                        fn = None
+                if fn is not None:
+                    fd, name = tempfile.mkstemp(prefix='HAND', suffix='.tmp', dir=dst.temporaryDirectory())
+                    os.close(fd)
+                    shutil.copyfile(fn, name)
+                    dst.restoreBlob(oid, tid, data, name, hint, m)
+                else:
+                    dst.restore(oid, tid, data, '', hint, m)
+        for dst, m in zip(dsts, metas):
+            dst.tpc_vote(m)
+        for dst, m in zip(dsts, metas):
+            dst.tpc_finish(m)
+
+
+def base_iterator(st):
+    """the iterator of the storage under a HexStorage (records as they are in the file)"""
+    return (st.base if hasattr(st, 'base') and type(st).__name__ == 'HexStorage' else st).iterator()
+
+
 def run_copy_case(case, tmp):
-    """returns dict(obs…) of the real code for one copy case (program, dst kind, range)"""
+    """returns dict(obs…) of the real code for one copy case: program, destination kind, entry point
+    (method | basecopy | blobcopy | twopass | resume | manual | manual2), optional range"""
+    import ZODB.BaseStorage
+    import ZODB.blob
     d = os.path.join(tmp, 'copy')
     shutil.rmtree(d, ignore_errors=True)
     os.makedirs(d)
     res = dict(error=None)
     b = None
-    dst = None
+    dst = dst2 = None
+    entry = case.get('entry', 'method')
+    kind = case['prog']['kind']
     phase = 'build'
     try:
         b = build(case['prog'], d)
@@ -534,7 +708,7 @@ def run_copy_case(case, tmp):
         phase = 'source-iterator'
         src_dump = iter_dump(src.iterator())
         res['src_dump'] = src_dump
-        res['src_blobs'] = case['prog']['kind'] in ('fileblob', 'demo-bm')
+        res['src_blobs'] = kind in BLOB_KINDS or kind == 'demo-bm'
         # every iterator range at every tid boundary (start = tid-1, tid, tid+1; stop open or at a
         # later boundary): cheap, and exercises both scan directions of FileIterator._skip_to_start
         phase = 'range-iterator'
@@ -556,26 +730,57 @@ def run_copy_case(case, tmp):
         res['range_checks'] = rc
         phase = 'open-destination'
         dst, dpath = open_storage(case['dst'], d, 'dst')
+        if entry == 'manual2':
+            dst2, dpath2 = open_storage(case.get('dst2', 'file'), d, 'dst2')
         rng_ = case.get('range')
+        both_blobs = res['src_blobs'] and case['dst'] in BLOB_DST and entry != 'basecopy'
+        res['both_blobs'] = both_blobs
+        phase = 'copy'
         if rng_:
             a = None if rng_[0] is None else bytes.fromhex(rng_[0])
             z = None if rng_[1] is None else bytes.fromhex(rng_[1])
-            other = RangeSource(src, a, z)
             phase = 'source-iterator'
             res['range_dump'] = iter_dump(src.iterator(a, z))
+            phase = 'copy'
+            dst.copyTransactionsFrom(RangeSource(src, a, z))
+        elif entry == 'method':
+            dst.copyTransactionsFrom(src)
+        elif entry == 'basecopy':
+            ZODB.BaseStorage.copy(src, dst)
+        elif entry == 'blobcopy':
+            ZODB.blob.copyTransactionsFromTo(src, dst)
+        elif entry == 'twopass':
+            z1, a2 = case['bounds']
+            dst.copyTransactionsFrom(RangeSource(src, None, bytes.fromhex(z1)))
+            res['pass1'] = [t.tid.hex() for t in dst.iterator()]
+            dst.copyTransactionsFrom(RangeSource(src, bytes.fromhex(a2), None))
+        elif entry == 'resume':
+            fsrc = FailingSource(src, case['failafter'])
+            try:
+                dst.copyTransactionsFrom(fsrc)
+                res['interrupted'] = False
+            except CopyInterrupted:
+                res['interrupted'] = True
+                dst.tpc_abort(dst.tpc_transaction())
+                dst.copyTransactionsFrom(RangeSource(src, fsrc.failed_tid, None))
+        elif entry in ('manual', 'manual2'):
+            manual_restore(src_dump, src, [dst] + ([dst2] if dst2 is not None else []),
+                           case.get('hints', 'keep'), case.get('hseed', 0), both_blobs)
         else:
-            other = src
-        phase = 'copy'
-        dst.copyTransactionsFrom(other)
+            raise ValueError(entry)
         phase = 'destination-iterator'
         res['dst_dump'] = iter_dump(dst.iterator())
-        both_blobs = res['src_blobs'] and case['dst'] in ('fileblob', 'blobwrap')
-        res['both_blobs'] = both_blobs
+        if case['dst'] in HEX_KINDS:
+            res['dst_dump_raw'] = iter_dump(base_iterator(dst))
+        if dst2 is not None:
+            res['dst2_dump'] = iter_dump(dst2.iterator())
+        family = kind in FILE_FAMILY and not rng_
+        res['family'] = family
         phase = 'source-queries'
         if not rng_:
-            res['src_q'] = query_dump(src, src_dump, blobs=both_blobs)
+            res['src_q'] = query_dump(src, src_dump, blobs=both_blobs, family=family)
         phase = 'destination-queries'
-        res['dst_q'] = query_dump(dst, res['dst_dump'], blobs=both_blobs)
+        res['dst_q'] = query_dump(dst, res['dst_dump'], blobs=both_blobs, family=family)
         phase = 'blobs'
         if both_blobs:
             from ZODB.blob import is_blob_record
@@ -590,19 +795,27 @@ def run_copy_case(case, tmp):
                             bl.append((r[0], r[1], r[2], None))
             res['blobrecs'] = bl
         # destination file image ([I], compared with the model's encoding)
-        fs = dst
-        fs_file = getattr(fs, '_file', None)
+        fs_file = getattr(dst, '_file', None)
         if fs_file is not None:
             fs_file.flush()
         with open(dpath, 'rb') as f:
             img = f.read()
         res['dst_img'] = (len(img), '%016x' % fnv64(img))
+        # close and reopen the copy (saved index, or by scan): it must still answer the same
+        phase = 'reopen-destination'
+        dst.close()
+        dst = None
+        if case.get('reopen') == 'scan' and os.path.exists(dpath + '.index'):
+            os.remove(dpath + '.index')
+        dst, _ = open_storage(case['dst'], d, 'dst')
+        res['reopen_dump'] = iter_dump(dst.iterator())
+        res['reopen_q'] = query_dump(dst, res['reopen_dump'], blobs=both_blobs, family=family)
     except Exception as e:
         # an exception of the real code is an OBSERVATION, judged by the oracle (judge_copy)
         res['error'] = '%s: %s' % (type(e).__name__, str(e)[:200])
         res['phase'] = phase
     finally:
-        for s in (dst, b):
+        for s in (dst, dst2, b):
             try:
                 if s is not None:
                     s.close()
@@ -611,23 +824,44 @@ def run_copy_case(case, tmp):
     return res
 
 
+def hexed(h):
+    """the record data a HexStorage destination writes for data `h` (hex string)"""
+    from binascii import hexlify
+    return None if h is None else (b'.h' + hexlify(bytes.fromhex(h))).hex() if h else h
+
+
 def copy_model_lines(case, res):
-    """driver lines for one copy case (source = what the real iterator yielded)"""
+    """driver lines for one copy case (source = what the real iterator yielded; for a HexStorage
+    destination the records as that destination transforms them; for hand restores the hints as
+    they were passed)"""
+    import random
+    tr = hexed if case['dst'] in HEX_KINDS else (lambda h: h)
+    entry = case.get('entry', 'method')
+    rnd = random.Random(case.get('hseed', 0))
     lines = ['reset']
     for t in res['src_dump']:
         lines.append('txn %s %d %s %s %s' % (t[0], ord(t[1]), t[2] or '-', t[3] or '-', t[4] or '-'))
         for r in t[6]:
-            lines.append('rec %s %s %s %s' % (r[0], r[1], 'none' if r[2] is None else (r[2] or '-'),
-                                              r[3] or 'none'))
-    blobvariant = case['dst'] in ('fileblob', 'blobwrap')
+            hint = r[3]
+            if entry in ('manual', 'manual2'):
+                mode = case.get('hints', 'keep')
+                md = mode if mode != 'mixed' else rnd.choice(['keep', 'none', 'bogus'])
+                if md == 'none':
+                    hint = None
+                elif md == 'bogus' and hint is not None:
+                    hint = '%016x' % (int(hint, 16) + 3)
+            d = tr(r[2])
+            lines.append('rec %s %s %s %s' % (r[0], r[1], 'none' if d is None else (d or '-'), hint or 'none'))
     if case.get('range'):
         lines.append('copyrange %s %s' % (case['range'][0] or 'none', case['range'][1] or 'none'))
-    elif blobvariant:
+    elif res.get('both_blobs'):
         for (o, t, data, content) in res.get('blobrecs', []):
-            lines.append('isblob %s' % data)
+            lines.append('isblob %s' % tr(data))
             if content is not None:
                 lines.append('blob %s %s %s' % (o, t, content or '-'))
         lines.append('copyblob')
+    elif entry in ('manual', 'manual2', 'blobcopy') or case['dst'] in BLOB_DST or case['dst'] in HEX_KINDS:
+        lines.append('copyblob')        # copyTransactionsFromTo / by hand: no time-stamp fix-up
     else:
         lines.append('copy')
     return lines
@@ -644,6 +878,9 @@ def judge_copy(case, res):
     """direct oracle; returns (signature, what) or None"""
     if res.get('error') and res.get('phase') == 'build':
         return None          # counted by the caller (copy:source-build-raised); not a copy matter
+    if res.get('error') == 'timeout':
+        return ('C17:copy-hangs', 'the copy case did not end within the watchdog time (hanging in: %s)'
+                % ' < '.join((res.get('where') or [])[:5]))
     if res.get('error') and res.get('phase', 'copy') != 'copy':
         sig = {'source-iterator': 'C17:source-iterator-raised',
                'destination-iterator': 'C17:destination-iterator-raised'}.get(
@@ -676,6 +913,18 @@ def judge_copy(case, res):
         return ('C17:copy-history-differs',
                 'transaction #%d differs: source %r destination %r' % (
                     k, pv_s[k] if k < len(pv_s) else None, pv_d[k] if k < len(pv_d) else None))
+    if 'pass1' in res:
+        want1 = [t[0] for t in res['src_dump'] if t[0] <= case['bounds'][0]]
+        if res['pass1'] != want1:
+            return ('C17:copy-two-pass', 'after the first pass (stop=%s) the destination has %r, expected %r'
+                    % (case['bounds'][0], res['pass1'], want1))
+    if 'dst2_dump' in res and prop_view(res['dst2_dump'], False) != pv_s:
+        return ('C17:copy-history-differs', 'second destination restored in lockstep differs: %r'
+                % ([t[0] for t in res['dst2_dump']],))
+    if 'reopen_dump' in res and (res['reopen_dump'] != res['dst_dump'] or res['reopen_q'] != res['dst_q']):
+        k = [k for k in sorted(res['dst_q']) if res['reopen_q'].get(k) != res['dst_q'][k]]
+        return ('C17:copy-differs-after-reopen', 'the copy answers differently after close + reopen (%s): %s'
+                % (case.get('reopen', 'index'), k[:3] or 'iterator'))
     if case.get('range'):
         a, z = case['range']
         want = [t for t in res['src_dump'] if (a is None or t[0] >= a) and (z is None or t[0] <= z)]
@@ -692,6 +941,20 @@ def judge_copy(case, res):
                         % (k, got.get(k), exp_q[k]))
         return None
     sq, dq = res['src_q'], res['dst_q']
+    if (case['prog']['kind'] in HEX_KINDS) != (case['dst'] in HEX_KINDS):
+        # a record transform on one side only: history() reports the size of the STORED record
+        def nosize(qd):
+            return {k: ([(h[0],) + tuple(h[2:]) for h in v] if k.startswith('history ') and isinstance(v, list)
+                        else v) for k, v in qd.items()}
+        sq, dq = nosize(sq), nosize(dq)
+    if case.get('entry') in ('manual', 'manual2') and case.get('hints', 'keep') != 'keep':
+        # restored without (or with useless) hints the copy holds full pickles / plain un-creations
+        # where the source has back pointers: same revisions, but history() sizes and the getTid /
+        # lastTid quirk for a pointer to an un-creation depend on that representation
+        def norep(qd):
+            return {k: ([(h[0],) + tuple(h[2:]) for h in v] if k.startswith('history ') and isinstance(v, list)
+                        else v) for k, v in qd.items() if not k.startswith(('getTid ', 'lastTid '))}
+        sq, dq = norep(sq), norep(dq)
     for k in sorted(sq):
         if sq[k] != dq.get(k):
             sig = 'C17:copy-query-differs:' + k.split()[0]
@@ -727,16 +990,42 @@ def nontrivial_copy(res):
 def gen_copy_case(rng, i):
     kind = SRC_KINDS[i % len(SRC_KINDS)]
     prog = gen_program(rng, kind)
-    dst = rng.choice(DST_KINDS if kind not in ('demo-bm', 'fileblob') or rng.random() < 0.2
-                     else ['fileblob', 'blobwrap'])
-    case = dict(part='copy', prog=prog, dst=dst)
-    if rng.random() < 0.3:
-        ts = [s['t'] for s in txn_steps(prog)]
+    blobsrc = kind in BLOB_KINDS or kind == 'demo-bm'
+    if blobsrc:
+        dsts = BLOB_DST if rng.random() < 0.85 else ('file',)
+    else:
+        dsts = DST_KINDS
+    dst = rng.choice(dsts)
+    case = dict(part='copy', prog=prog, dst=dst, reopen=rng.choice(['index', 'scan']))
+    ts = [s['t'] for s in txn_steps(prog)]
+    r = rng.random()
+    if r < 0.22:
         a = rng.choice(ts + [None, ts[0] - 1, ts[-1] + 1])
         z = rng.choice([None, None] + [t for t in ts if a is None or t >= a] + [ts[-1] + 5])
         if a is not None and rng.random() < 0.3:
             a += rng.choice([1, -1])
         case['range'] = ['%016x' % a if a is not None else None, '%016x' % z if z is not None else None]
+    elif r < 0.34:
+        # two-pass copy: bounds equal to an existing tid and tid +- 1
+        t = rng.choice(ts)
+        z1, a2 = rng.choice([(t, t + 1), (t - 1, t), (t, t)]) if len(ts) > 1 else (t, t + 1)
+        if (z1, a2) == (t, t):       # inclusive bounds would copy t twice: second pass from the next tid
+            a2 = t + 1
+        case['entry'], case['bounds'] = 'twopass', ['%016x' % z1, '%016x' % a2]
+    elif r < 0.44:
+        case['entry'], case['failafter'] = 'resume', rng.randrange(0, 6)
+    elif r < 0.60:
+        case['entry'] = rng.choice(['manual', 'manual', 'manual2'])
+        case['hints'] = rng.choice(['keep', 'none', 'bogus', 'mixed'])
+        case['hseed'] = rng.randrange(1000)
+        if case['entry'] == 'manual2':
+            case['dst2'] = rng.choice(['file', 'fileblob'] if not blobsrc else ['fileblob'])
+    elif r < 0.68 and not blobsrc and dst in ('file', 'fileblob', 'cfg-file'):
+        case['entry'] = 'basecopy'
+    elif r < 0.76 and dst in BLOB_DST:
+        case['entry'] = 'blobcopy'
+    if dst in HEX_KINDS and blobsrc and dst == 'hexfile':
+        case['dst'] = 'hexblob'
     return case
 
 
